@@ -8,6 +8,7 @@
    Not generated: the rewind `src.rewind()` of from_config between footer and first use (written here as
    in Reader.ropen), bincode's byte layout of the footer (Blocks.parse_footer_map inside
    SrcTie3Reader.bincode_model) and ArchiveFileBlock::from = Blocks.parse_block (the L3 link). *)
+From MLA Require Import Limit.
 From MLA Require Import Base Stream Blocks Writer Reader RoundTripBlocks RoundTripFooter
   RoundTripReader RoundTripWriter RoundTripRun RoundTripGlue RoundTrip SrcTie2 SrcTie3Reader SrcTie3ReaderRT CarryWriter.
 From MLAGen Require Src2 Src3d.
@@ -15,6 +16,9 @@ From Coq Require Import ZifyBool ZifyNat ZifyN Permutation.
 Open Scope N_scope.
 
 Section Open.
+  (* the translated reader has the constant of the source baked in: the carried theorems are stated at
+     LIM = Src3d.BINCODE_MAX_DESERIALIZE (the writer side included: the same constant in lib.rs) *)
+  Local Hint Extern 0 Limit => exact Src3d.BINCODE_MAX_DESERIALIZE : typeclass_instances.
   Variable S : Stream.
   (* the part of ArchiveReader::from_config above the layers: the TRANSLATED deserialize_from, then the rewind *)
   Definition src_open (s : st S) : res (Src3d.ArchiveReader S) :=
@@ -36,6 +40,9 @@ Section Open.
 End Open.
 
 Section CarryReader.
+  (* the translated reader has the constant of the source baked in: the carried theorems are stated at
+     LIM = Src3d.BINCODE_MAX_DESERIALIZE (the writer side included: the same constant in lib.rs) *)
+  Local Hint Extern 0 Limit => exact Src3d.BINCODE_MAX_DESERIALIZE : typeclass_instances.
   Variable FNMAX : N.
   Variables T_START T_CONTENT T_EOA T_EOF : N.
   Variable H : bytes -> bytes.
